@@ -1137,7 +1137,9 @@ impl Mut {
         let cfg = w.cfg.clone();
         let heap = cfg.heap_mb << 20;
         let budget = heap / 100 * cfg.fill_pct;
-        let floor = heap / 4; // the stated constant: a quarter of the heap
+        // the stated constant: 1/16 of the heap (1/4 for ConcurrentImmix, whose non-moving
+        // concurrent collector keeps partially used blocks); on this tree the observed value is 0
+        let floor = if cfg.plan == "ConcurrentImmix" { heap / 4 } else { heap / 16 };
         let mut series: Vec<usize> = vec![];
         let oom0 = oom_count();
         for c in 0..cycles {
@@ -1239,7 +1241,7 @@ impl Mut {
             let used = memory_manager::used_bytes(w.mmtk);
             series.push(used);
             if used > floor {
-                violation("C09", "used-bytes-after-exhaustive-gc-above-floor", format!("cycle {} (profile {}): used_bytes = {} after an exhaustive GC with an empty root set, floor = heap/4 = {} (series so far {:?})", c, profile, used, floor, &series[series.len().saturating_sub(8)..]));
+                violation("C09", "used-bytes-after-exhaustive-gc-above-floor", format!("cycle {} (profile {}): used_bytes = {} after an exhaustive GC with an empty root set, floor = {} (series so far {:?})", c, profile, used, floor, &series[series.len().saturating_sub(8)..]));
             }
             with_report("C09", |r| {
                 r.evaluations += 1;
